@@ -6,6 +6,9 @@
 (*   uintN / (## N)  N bits, unsigned, most significant bit first               *)
 (*   intN            N bits, two's complement                                   *)
 (*   bitsN           N raw bits             Bool   bool_false$0 / bool_true$1   *)
+(*   VarUInteger n   var_uint$_ {n:#} len:(#< n) value:(uint (len * 8)):         *)
+(*                   len in ceil(log2 n) bits (the bits of n - 1), the shortest  *)
+(*                   len that holds the value, then len bytes                    *)
 (*   Maybe T         nothing$0 | just$1 value:T                                 *)
 (*   Either L R      left$0 value:L | right$1 value:R                           *)
 (*   ^T              one reference to a cell holding exactly T                  *)
@@ -19,7 +22,7 @@
 (*   a cell holds at most 1023 bits and 4 references                            *)
 (*                                                                               *)
 (* Schema AST: [decls |-> << [ctor, tag, result, fields |-> <<[name, ty]>>] >>]  *)
-(*   ty = [t |-> "uint"|"int"|"bits"|"nat", n] | [t |-> "bool"] | [t |-> "maybe", of] *)
+(*   ty = [t |-> "uint"|"int"|"bits"|"nat"|"varuint", n] | [t |-> "bool"] | [t |-> "maybe", of] *)
 (*      | [t |-> "either", l, r] | [t |-> "ref", of] | [t |-> "anon", fields]    *)
 (*      | [t |-> "named", name] | [t |-> "dict", n, val]                         *)
 (* Values: numbers as decimal strings, bits as "0101", Bool TRUE/FALSE,          *)
@@ -57,9 +60,17 @@ Nil         == Part(<<>>, <<>>)
 Cat(x, y)   == Part(x.b \o y.b, x.r \o y.r)
 BitsOnly(b) == Part(b, <<>>)
 
-IsFixed(ty) == ty.t \in {"uint", "int", "bits", "nat", "bool"}
+\* VarUInteger n: bytes the value needs (0 for 0; -1 if it needs more than n - 1), width of the len field
+RECURSIVE VarLenFrom(_, _, _)
+VarLenFrom(v, l, max) == IF l > max THEN -1 ELSE IF B!UFits(v, 8 * l) THEN l ELSE VarLenFrom(v, l + 1, max)
+VarLen(v, n)   == IF v = "0" THEN 0 ELSE VarLenFrom(v, 1, n - 1)
+VarLenBits(n)  == B!BitLen(n - 1)
+VarBits(v, n)  == LET l == VarLen(v, n) IN (IF VarLenBits(n) = 0 THEN <<>> ELSE B!UBits(ToString(l), VarLenBits(n))) \o (IF l = 0 THEN <<>> ELSE B!UBits(v, 8 * l))
+
+IsFixed(ty) == ty.t \in {"uint", "int", "bits", "nat", "bool", "varuint"}
 FixedBits(ty, v) ==
   CASE ty.t \in {"uint", "nat"} -> B!UBits(v, ty.n)
+    [] ty.t = "varuint" -> VarBits(v, ty.n)
     [] ty.t = "int"  -> B!SBits(v, ty.n)
     [] ty.t = "bits" -> StrToBits(v)
     [] ty.t = "bool" -> IF v THEN <<1>> ELSE <<0>>
@@ -69,6 +80,7 @@ ValidFields(S, fs, v, i) == IF i > Len(fs) THEN TRUE
                             ELSE fs[i].name \in DOMAIN v /\ ValidTy(S, fs[i].ty, v[fs[i].name]) /\ ValidFields(S, fs, v, i + 1)
 ValidTy(S, ty, v) ==
   CASE ty.t \in {"uint", "nat"} -> B!UFits(v, ty.n)
+    [] ty.t = "varuint" -> ty.n >= 1 /\ VarLen(v, ty.n) >= 0
     [] ty.t = "int"    -> ty.n >= 1 /\ B!SFits(v, ty.n)
     [] ty.t = "bits"   -> StrLen(v) = ty.n
     [] ty.t = "bool"   -> v \in BOOLEAN
@@ -112,6 +124,7 @@ SzFs(S, fs, v, i) == IF i > Len(fs) THEN [b |-> 0, r |-> 0, ok |-> TRUE]
 InCell(x) == x.ok /\ x.b <= MaxBits /\ x.r <= MaxRefs
 Sz(S, ty, v) ==
   CASE ty.t \in {"uint", "int", "bits", "nat"} -> [b |-> ty.n, r |-> 0, ok |-> TRUE]
+    [] ty.t = "varuint" -> [b |-> VarLenBits(ty.n) + 8 * VarLen(v, ty.n), r |-> 0, ok |-> TRUE]
     [] ty.t = "bool"   -> [b |-> 1, r |-> 0, ok |-> TRUE]
     [] ty.t = "maybe"  -> IF v.m = "none" THEN [b |-> 1, r |-> 0, ok |-> TRUE] ELSE LET x == Sz(S, ty.of, v.v) IN [x EXCEPT !.b = @ + 1]
     [] ty.t = "either" -> LET x == Sz(S, IF v.e = "l" THEN ty.l ELSE ty.r, v.v) IN [x EXCEPT !.b = @ + 1]
